@@ -1204,9 +1204,14 @@ func c11b(c *Ctx) {
 		}
 		c.Check(ok, "switch/operand-is-result-var", c.W.FuncPos(fn), "an AutoVar switch compares the command's result var", "AutoVar switch operand is "+pretty(got))
 		okRet := false
-		for _, r := range returnsOf(fn) {
+		for i, r := range returnsOf(fn) {
 			if c.isSuccessRet(fn, r) && c.term(fn, r.Results[1]) == res+"#1" {
 				okRet = true
+			}
+			// ... on every successful way out (a second return that hands back no preamble drops
+			// the command, and with it its side effect on the game)
+			if c.isSuccessRet(fn, r) {
+				c.Check(c.term(fn, r.Results[1]) == res+"#1", fmt.Sprintf("switch/returns-preamble#%d", i), c.W.Pos(r.Pos()), "this successful return hands the command back as preamble", "parseSwitchStatement can return successfully with "+pretty(c.term(fn, r.Results[1]))+" as preamble instead of the AutoVar command it parsed: the command would not be emitted")
 			}
 		}
 		c.Check(okRet, "switch/returns-preamble", c.W.FuncPos(fn), "the switch parser hands the command back as preamble", "parseSwitchStatement does not return the AutoVar command as preamble")
